@@ -49,7 +49,7 @@ ASSUMPTIONS = (
 EXPECTED_PROBES = ("rewrite:missing", "rewrite:older", "rewrite:magic", "reuse-unchanged", "either-zone",
                    "crash:before-create", "crash:during-fill", "crash:between-close-and-move", "crash:after-move",
                    "crash:in-mkdir", "multi:two-writers-in-write-phase", "multi:reader-loaded-while-writer-midway",
-                   "writer-called", "fault-raised-cleanly", "survivor-regenerated", "survivor-reused")
+                   "writer-called", "fault-raised-cleanly", "survivor-regenerated", "survivor-reused", "same-process-reconstruct")
 
 TRAILER = b'__M_END_METADATA\n"""\n'
 ENCODINGS = {
@@ -123,6 +123,11 @@ def generate(rng, tier, idx, force=None):
             k2, c2 = rng.choice((("enospc", "copy-write"), ("crash-mid", "copy-write"), ("crash-after", "copy-open"),
                                  ("crash-before", "unlink"), ("crash-after", "copy-write")))
             faults.append({"kind": k2, "call": c2, "nth": rng.choice((0, 1)), "arg": 0.5})
+    elif r < 0.88 and r >= 0.80:
+        # the same process constructs the Template, the source changes (dated 2 s later, the clock does not move),
+        # and the same process constructs it again
+        tail = {"kind": "twice"}
+        cfg["writer"] = False
     elif r < 0.80:
         tail = {"kind": "multi", "nodes": rng.choice((2, 2, 3, 4, 8)), "strategy": rng.choice(("random", "random", "pct")),
                 "sched_seed": rng.getrandbits(32), "crash": rng.random() < 0.35}
@@ -185,6 +190,27 @@ def node_construct(world, clock, spec):
         out = {"status": "raised", "exc": [c.__name__ for c in type(e).__mro__], "msg": str(e)[:300]}
     out["writer_calls"] = calls
     return out
+
+
+def node_construct_twice(world, clock, spec, new_source, modpath):
+    first = node_construct(world, clock, spec)
+    # two whole seconds after everything that exists now (the first construct may have taken simulated time)
+    stamps = [clock.now, os.stat(spec["src"]).st_mtime]
+    try:
+        stamps.append(os.stat(modpath).st_mtime)
+    except OSError:
+        pass
+    new_mtime = float(int(max(stamps)) + 2)
+    was = world.enabled
+    world.enabled = False
+    try:
+        world.put_file(spec["src"], new_source, new_mtime)
+    finally:
+        world.enabled = was
+    spec2 = dict(spec)
+    spec2["x"] = spec["x"] + "b"
+    second = node_construct(world, clock, spec2)
+    return {"first": first, "second": second}
 
 
 # ------------------------------------------------------------------ driver
@@ -625,6 +651,49 @@ class Driver:
                           % (label, out["exc"][0], out["msg"][:100]), self.ctx_detail)
         self.survivor(label)
 
+    def tail_twice(self):
+        spec = self.spec()
+        pre = self.pre_state()
+        self.v += 1
+        new_src = source_bytes(self.v, self.cfg["encoding"], self.cfg["pad"])
+        node = procs.spawn("n%d" % self.nodes_run, self.root, node_construct_twice, (spec, new_src, self.modpath), self.clock.now, self.cfg,
+                           lockstep=False, watch=self.modpath)
+        self.nodes_run += 1
+        node.spec = spec
+        node.run_to_end()
+        if node.crashed:
+            raise RuntimeError("twice-node died")
+        status, outs = node.result
+        if status != "ok":
+            raise RuntimeError("node task failed: %s" % outs)
+        self.check_observations(pre, [node], self.allowed_hashes(pre, [node]), "two constructs in one process")
+        out2 = outs["second"]
+        post = self.read_mod()
+        try:
+            msec = int(os.stat(self.modpath).st_mtime)
+            for ev in node.events:
+                if ev[4] is not None and bytes(ev[4]).endswith(TRAILER):
+                    self.generations.setdefault((len(ev[4]), msec), set()).add(hashlib.sha1(ev[4]).hexdigest())
+            if pre["data"] is not None:
+                self.generations.setdefault((len(pre["data"]), msec), set()).add(hashlib.sha1(pre["data"]).hexdigest())
+        except OSError:
+            pass
+        pcls = self.classify(post)
+        stale_pyc = "stale-bytecode" if self.stale_pyc_possible(post) else None
+        label = "second construct in the same process after the source changed (mtime +2 s, clock not advanced)"
+        self.probe("same-process-reconstruct")
+        if out2["status"] != "ok":
+            self.flag("survivor-unloadable", "%s raised %s: %s" % (label, out2["exc"][0], out2["msg"][:100]))
+        else:
+            want = expected_text(self.v, self.cfg["encoding"], self.cfg["pad"], spec["x"] + "b")
+            if out2["vtag"] != "v%d" % self.v or out2["text"] != want:
+                self.flag("renders-wrong-version", "%s: rendered %r (VTAG %s); the source is v%d and the module file %s"
+                          % (label, out2["text"][:60], out2["vtag"], self.v, _cls_short(pcls)), stale_pyc)
+        if pcls is None or not pcls["complete"] or pcls["v"] != self.v:
+            self.flag("rewrite-missed", "%s: module file afterwards is %s, source is v%d" % (label, _cls_short(pcls), self.v), "older")
+        self.containment([node], label)
+        self.survivor(label)
+
     def tail_multi(self):
         tail = self.trace["tail"]
         nn = tail["nodes"]
@@ -753,6 +822,8 @@ def execute(trace, root):
         d.tail_crash()
     elif kind == "fault":
         d.tail_fault()
+    elif kind == "twice":
+        d.tail_twice()
     else:
         d.tail_multi()
     seen = set()
